@@ -76,6 +76,10 @@ def dim_case(rep, c):
     q = UnitValue(1.0, Units(UnitsSystem(), UnitsDimensions(*dim)))
     arr = UnitArray([0.0, 1.0], Units(UnitsSystem(), UnitsDimensions(*dim)))
     system = lambda: RDSystem(network=net2(), space=RDGridSpace(w=2))
+    other = UnitsSystem(space="nm", time="ms", quantity="mol")
+    q2 = UnitValue(1.0, Units(other, UnitsDimensions(*dim)))        # the same wrong (or right) dimension, in another unit system
+    right_t = UnitValue(0.5, "s")
+    right_x = UnitValue(2.0, "molecule")
     table = {
         "density": [lambda: Species("A", density=q), lambda: Species("A", density={"a": q}), lambda: Species("A", density=str(q))],
         "D": [lambda: Species("A", D=q), lambda: Species("A", D={"default": q})],
@@ -90,9 +94,15 @@ def dim_case(rep, c):
         "time_step": [lambda: RDScript(system(), [0, 1], time_step=q)],
         "t_max": [lambda: RDScript(system(), [0, 1], t_max=q)],
         "sampling_interval": [lambda: RDScript(system(), [0, 1], sampling_interval=q)],
-        "t_sample": [lambda: RDScript(system(), arr)],
+        # arrays are also given item by item: every item must have the field's dimension, whatever system it is written in
+        "t_sample": [lambda: RDScript(system(), arr), lambda: RDScript(system(), [right_t, q]), lambda: RDScript(system(), [q2, right_t]),
+                     lambda: UnitArray([0.0, q], "s"), lambda: UnitArray([q2, right_t], Units(UnitsSystem(), UnitsDimensions(0, 1, 0))),
+                     lambda: RDScript(system(), [0.0, 1.0], units_system=other).__setattr__("t_sample", [q2, UnitValue(1.0, "ms")])],
         "state": [lambda: RDSystem(network=net2(), space=RDGridSpace(w=1), state=arr),
-                  lambda: system().set_state("A", 0, q)],
+                  lambda: system().set_state("A", 0, q),
+                  lambda: RDSystem(network=net2(), space=RDGridSpace(w=1), state=[right_x, q]),
+                  lambda: RDSystem(network=net2(), space=RDGridSpace(w=1), state=[q2, right_x]),
+                  lambda: UnitArray([q, right_x], "molecule")],
     }
     return table[f], {"field": f, "dimension": dim}
 
